@@ -13,7 +13,7 @@ DEFAULT_INNER = ["String", "boxstr"]
 
 def model(tier):
     cfg = core.workdir("mc_" + PROP) + "/MC_FromStr.cfg"
-    consts = dict(Size=1 if tier == "quick" else 2, Dedup=True)
+    consts = dict(Size=1 if tier == "quick" else 2, Dedup=True, Overlap=False)
     core.write_cfg(cfg, constants=consts, invariants=["NeverDisabled", "ExpansionIsSpec"])
     res = core.tlc_mc("MC_FromStr.tla", cfg, "mc_" + PROP, workers=6, timeout=7200, xmx="12g")
     if res["coverage"].get("TakeDefault", 0) == 0:
